@@ -233,6 +233,7 @@ func (n *Node) served(chain string, h uint32) {
 			n.heightByTask = map[string]uint32{}
 		}
 		n.heightByTask[t.ID+"/"+chain] = h
+		n.noteServedAt(t.ID, chain)
 	}
 	n.mu.Unlock()
 }
